@@ -535,6 +535,11 @@ func ruleReadNCalls(c *core.Ctx, d *decoderSet, rule string) {
 			switch b := buf.(type) {
 			case *ssa.MakeSlice:
 				ok = sameLen(b.Len, ln)
+			case *ssa.Call:
+				// a small constructor of the repository: newPayload(size) returning make([]byte, size)
+				if j, isCtor := makesLenOfParam(b.Call.StaticCallee()); isCtor && j < len(b.Call.Args) {
+					ok = sameLen(b.Call.Args[j], ln)
+				}
 			case *ssa.Slice:
 				// []byte{0,0,0,0}: slice of a fresh array of constant length
 				if al, isAlloc := b.X.(*ssa.Alloc); isAlloc {
@@ -551,7 +556,7 @@ func ruleReadNCalls(c *core.Ctx, d *decoderSet, rule string) {
 			if !ok {
 				// len(buf) form
 				if lc, isCall := core.StripConv(ln).(*ssa.Call); isCall {
-					if bi, isB := lc.Call.Value.(*ssa.Builtin); isB && bi.Name() == "len" && core.Canon(lc.Call.Args[0]) == buf {
+					if bi, isB := lc.Call.Value.(*ssa.Builtin); isB && bi.Name() == "len" && (core.Canon(lc.Call.Args[0]) == buf || core.SameValue(lc.Call.Args[0], args[1]) || sameLen(lc.Call.Args[0], args[1])) {
 						ok = true
 					}
 				}
@@ -562,6 +567,54 @@ func ruleReadNCalls(c *core.Ctx, d *decoderSet, rule string) {
 	if n == 0 {
 		c.Undecided(rule, "ReadN calls", token.NoPos, "no call of basic.ReadN found")
 	}
+}
+
+// makesLenOfParam: f returns, on every path, a slice made on the spot whose length is its
+// parameter j (the empty slice only where that parameter is zero).
+func makesLenOfParam(f *ssa.Function) (int, bool) {
+	if f == nil || len(f.Blocks) == 0 || len(f.Blocks) > 12 {
+		return 0, false
+	}
+	idx := -1
+	var zero []*ssa.Return
+	for _, r := range core.Returns(f) {
+		if len(r.Results) != 1 {
+			return 0, false
+		}
+		mk, ok := core.Canon(core.RetVal(r, 0)).(*ssa.MakeSlice)
+		if !ok {
+			return 0, false
+		}
+		if k, isK := core.ConstInt(mk.Len); isK && k == 0 {
+			zero = append(zero, r)
+			continue
+		}
+		p, isP := core.Canon(core.StripConv(mk.Len)).(*ssa.Parameter)
+		if !isP {
+			return 0, false
+		}
+		j := -1
+		for i, fp := range f.Params {
+			if fp == p {
+				j = i
+			}
+		}
+		if j < 0 || (idx >= 0 && idx != j) {
+			return 0, false
+		}
+		idx = j
+	}
+	if idx < 0 {
+		return 0, false
+	}
+	for _, r := range zero {
+		isP := func(v ssa.Value) bool { return core.Canon(core.StripConv(v)) == ssa.Value(f.Params[idx]) }
+		isZ := func(v ssa.Value) bool { k, ok := core.ConstInt(v); return ok && k == 0 }
+		if !core.Guarded(f, r, core.Eq(isP, isZ)) {
+			return 0, false
+		}
+	}
+	return idx, true
 }
 
 // sameLen: the two length expressions denote the same number (modulo integer conversions).
